@@ -29,7 +29,7 @@ def _affine(e, env):
     if isinstance(e, ast.Constant) and isinstance(e.value, int) and not isinstance(e.value, bool):
         return Aff.const(e.value)
     if isinstance(e, ast.Name):
-        if e.id in env:
+        if e.id in env and not isinstance(env[e.id], tuple):
             return env[e.id]
         raise Unknown('name %s' % e.id)
     if isinstance(e, ast.Call) and isinstance(e.func, ast.Name) and e.func.id == 'len' and len(e.args) == 1 and isinstance(e.args[0], ast.Name) and env.get('#signal') == e.args[0].id:
@@ -39,12 +39,16 @@ def _affine(e, env):
         return l + r if isinstance(e.op, ast.Add) else l - r
     if isinstance(e, ast.UnaryOp) and isinstance(e.op, ast.USub):
         return -_affine(e.operand, env)
+    if isinstance(e, ast.Call) and isinstance(e.func, ast.Name) and e.func.id == 'int' and len(e.args) == 1 and not e.keywords:
+        return _affine(e.args[0], env)      # bounds arrive as whole numbers of samples
     raise Unknown(ast.unparse(e)[:40])
 
 
 def _bound(e, env, lower):
     """a bound expression -> list of alternatives, each a list of Aff A meaning x >= A (lower) / x <= A (upper)
     max in a lower bound / min in an upper bound are conjunctions; the other way round a disjunction"""
+    if isinstance(e, ast.Name) and isinstance(env.get(e.id), tuple) and env[e.id][0] == 'expr':
+        return _bound(env[e.id][1], env[e.id][2], lower)
     if isinstance(e, ast.Call) and isinstance(e.func, ast.Name) and e.func.id in ('max', 'min') and len(e.args) >= 2 and not e.keywords:
         parts = [_bound(a, env, lower) for a in e.args]
         conj = (e.func.id == 'max') == lower
@@ -104,10 +108,14 @@ def _negate(dnf):
 def read_helper(fnode):
     """-> list of disjuncts (each a list of Aff >= 0 over b, e, n, x) describing `x in output` for one input interval [b, e]"""
     params = [a.arg for a in fnode.args.args]
-    if len(params) != 2:
+    if len(params) not in (2, 4):
         raise Unknown('helper takes %d parameters' % len(params))
     env = {'#signal': params[0]}
     ivs = params[1]
+    if len(params) == 4:
+        # the bounds of a timed operator, in samples: 0 <= A <= B
+        env[params[2]] = Aff.sym('A')
+        env[params[3]] = Aff.sym('B')
     x = Aff.sym('x')
     outs = []
 
@@ -122,13 +130,40 @@ def read_helper(fnode):
     body = [s for s in fnode.body if not (isinstance(s, ast.Expr) and isinstance(s.value, ast.Constant))]
     acc = None
     envl = env
+    def union_arg(v):
+        # interval_union(X) denotes the same set of samples as X
+        if isinstance(v, ast.Call) and isinstance(v.func, ast.Name) and v.func.id == 'interval_union' and len(v.args) == 1:
+            return v.args[0]
+        return v
+
+    def pick(stmts):
+        """`begin, end = intervals[-1]` (or [0]) followed by appends: read as the same statements for every requested interval.  Whether one
+        interval may stand for all (only `end` of the last, only `begin` of the first) is R-EXPL-ALL's question"""
+        for k, q in enumerate(stmts):
+            if isinstance(q, ast.Assign) and len(q.targets) == 1 and isinstance(q.targets[0], (ast.Tuple, ast.List)) and len(q.targets[0].elts) == 2 \
+                    and isinstance(q.value, ast.Subscript) and isinstance(q.value.value, ast.Name) and q.value.value.id == ivs:
+                el = dict(env)
+                el[q.targets[0].elts[0].id] = Aff.sym('b')
+                el[q.targets[0].elts[1].id] = Aff.sym('e')
+                return el, stmts[k + 1:]
+        return None
     for st in body:
         if isinstance(st, ast.Assign) and len(st.targets) == 1 and isinstance(st.targets[0], ast.Name):
             if isinstance(st.value, ast.List) and not st.value.elts:
                 acc = st.targets[0].id
                 continue
+            if acc is not None and st.targets[0].id == acc and isinstance(union_arg(st.value), ast.Name) and union_arg(st.value).id == acc:
+                continue        # acc = interval_union(acc)
             env[st.targets[0].id] = _affine(st.value, env)
             continue
+        if isinstance(st, ast.If) and not st.orelse and isinstance(st.test, ast.Name) and st.test.id == ivs and pick(st.body) is not None:
+            # if intervals: begin, end = intervals[-1]; acc.append([..])
+            envl, rest = pick(st.body)
+            _arms(rest, [[]], envl, acc, emit)
+            continue
+        if isinstance(st, ast.If) and isinstance(st.test, ast.UnaryOp) and isinstance(st.test.op, ast.Not) and isinstance(st.test.operand, ast.Name) \
+                and st.test.operand.id == ivs and len(st.body) == 1 and isinstance(st.body[0], ast.Return) and isinstance(st.body[0].value, ast.List) and not st.body[0].value.elts:
+            continue            # if not intervals: return []   -- nothing requested, nothing returned
         if isinstance(st, ast.For) and isinstance(st.iter, ast.Name) and st.iter.id == ivs and isinstance(st.target, (ast.Tuple, ast.List)) and len(st.target.elts) == 2:
             envl = dict(env)
             envl[st.target.elts[0].id] = Aff.sym('b')
@@ -136,8 +171,24 @@ def read_helper(fnode):
             _arms(st.body, [[]], envl, acc, emit)
             continue
         if isinstance(st, ast.Return):
-            v = st.value
+            v = union_arg(st.value)
             if isinstance(v, ast.Name) and v.id == acc:
+                return outs
+            if isinstance(v, ast.List) and len(v.elts) == 1 and isinstance(v.elts[0], (ast.List, ast.Tuple)) and len(v.elts[0].elts) == 2:
+                # return [[lo, hi]] with lo / hi built from intervals[-1][k] / intervals[0][k]: one output interval per request, read per request
+                class _P(ast.NodeTransformer):
+                    def visit_Subscript(self, n_):
+                        self.generic_visit(n_)
+                        if isinstance(n_.value, ast.Subscript) and isinstance(n_.value.value, ast.Name) and n_.value.value.id == ivs and isinstance(n_.slice, ast.Constant) \
+                                and n_.slice.value in (0, 1):
+                            return ast.copy_location(ast.Name(id='__b' if n_.slice.value == 0 else '__e', ctx=ast.Load()), n_)
+                        return n_
+                import copy as _copy
+                pair = _P().visit(_copy.deepcopy(v.elts[0]))
+                envl = dict(env)
+                envl['__b'] = Aff.sym('b')
+                envl['__e'] = Aff.sym('e')
+                emit([[]], pair)
                 return outs
             if isinstance(v, ast.Name) and v.id == ivs:
                 return [[x - Aff.sym('b'), Aff.sym('e') - x]]
@@ -175,7 +226,11 @@ def _arms(stmts, pre, env, acc, emit):
         if isinstance(st, (ast.Pass, ast.Continue)):
             continue
         if isinstance(st, ast.Assign) and len(st.targets) == 1 and isinstance(st.targets[0], ast.Name):
-            env[st.targets[0].id] = _affine(st.value, env)
+            try:
+                env[st.targets[0].id] = _affine(st.value, env)
+            except Unknown:
+                # a clipped bound (`lo = max(begin - b, 0)`): kept as an expression, opened where it is used as a bound
+                env[st.targets[0].id] = ('expr', st.value, dict(env))
             continue
         raise Unknown('loop statement %s' % ast.unparse(st)[:40])
 
@@ -209,6 +264,124 @@ def equivalent(disjuncts, d):
         if not _infeasible(P + R + list(combo)):
             return 'too-few'
     return None
+
+
+def _pre_timed():
+    A, B = Aff.sym('A'), Aff.sym('B')
+    return _pre() + [A, B - A]
+
+
+def same_set(dj1, dj2, timed=False):
+    """None if the two descriptions denote the same samples for every request, else 'first-has-more' / 'second-has-more'"""
+    P = _pre_timed() if timed else _pre()
+
+    def implies(Ds, Es):
+        live = [E for E in Es if not _infeasible(P + E)]
+        for D in Ds:
+            if _infeasible(P + D):
+                continue
+            if not live:
+                return False
+            ok = True
+            for combo in itertools.product(*[[(-a) - 1 for a in E] for E in live]):
+                if not _infeasible(P + D + list(combo)):
+                    ok = False
+                    break
+            if not ok:
+                return False
+        return True
+    if not implies(dj1, dj2):
+        return 'first-has-more'
+    if not implies(dj2, dj1):
+        return 'second-has-more'
+    return None
+
+
+def timed_reference(direction):
+    """the samples a bounded operator over [A, B] evaluated on the request [b, e] reads: [b-B, e-A] clipped at 0 (past), [b+A, e+B] clipped at n-1 (future)"""
+    b, e, n, x, A, B = Aff.sym('b'), Aff.sym('e'), Aff.sym('n'), Aff.sym('x'), Aff.sym('A'), Aff.sym('B')
+    if direction == 'past':
+        # x >= max(b - B, 0), x <= max(e - A, 0)
+        return [[x - (b - B), x, (e - A) - x], [x - (b - B), x, -x, -(e - A) - Aff.const(1)]]
+    last = n - Aff.const(1)
+    # x >= min(b + A, last), x <= min(e + B, last)
+    return [[x - (b + A), (e + B) - x, last - x], [x - last, (e + B) - x, last - x], [x - (b + A), (b + A) - last - Aff.const(1), last - x, x - last]]
+
+
+def read_scan_window(fnode):
+    """a helper that scans part of the signal for each request (`for i in range(lo, hi + 1)` inside the loop over the requests): the scanned
+    positions as disjuncts over b, e, n, A, B, x"""
+    params = [a.arg for a in fnode.args.args]
+    if len(params) != 4:
+        raise Unknown('not a bounded helper')
+    env = {'#signal': params[0], params[2]: Aff.sym('A'), params[3]: Aff.sym('B')}
+    x = Aff.sym('x')
+    for st in fnode.body:
+        if isinstance(st, ast.Assign) and len(st.targets) == 1 and isinstance(st.targets[0], ast.Name) and not (isinstance(st.value, ast.List)):
+            try:
+                env[st.targets[0].id] = _affine(st.value, env)
+            except Unknown:
+                pass
+        if isinstance(st, ast.For) and isinstance(st.iter, ast.Name) and st.iter.id == params[1] and isinstance(st.target, (ast.Tuple, ast.List)) and len(st.target.elts) == 2:
+            el = dict(env)
+            el[st.target.elts[0].id] = Aff.sym('b')
+            el[st.target.elts[1].id] = Aff.sym('e')
+            for q in st.body:
+                if isinstance(q, ast.Assign) and len(q.targets) == 1 and isinstance(q.targets[0], ast.Name):
+                    try:
+                        el[q.targets[0].id] = _affine(q.value, el)
+                    except Unknown:
+                        el[q.targets[0].id] = ('expr', q.value, dict(el))
+                if isinstance(q, ast.For) and isinstance(q.iter, ast.Call) and isinstance(q.iter.func, ast.Name) and q.iter.func.id == 'range' and len(q.iter.args) == 2:
+                    lo_alts = _bound(q.iter.args[0], el, True)
+                    hi_e = q.iter.args[1]
+                    # range(lo, hi + 1): positions lo .. hi
+                    if isinstance(hi_e, ast.BinOp) and isinstance(hi_e.op, ast.Add) and isinstance(hi_e.right, ast.Constant) and hi_e.right.value == 1:
+                        hi_alts = _bound(hi_e.left, el, False)
+                        shift = 0
+                    else:
+                        hi_alts = _bound(hi_e, el, False)
+                        shift = 1
+                    outs = []
+                    for lo in lo_alts:
+                        for hi in hi_alts:
+                            outs.append([x - a_ for a_ in lo] + [a_ - Aff.const(shift) - x for a_ in hi])
+                    return outs
+    raise Unknown('no scan over the signal per request')
+
+
+def _rename(dj, m):
+    out = []
+    for D in dj:
+        nd = []
+        for a in D:
+            nd.append(Aff({m.get(k, k): v for k, v in a.c.items()}, a.k))
+        out.append(nd)
+    return out
+
+
+def pick_covers_all(dj, which, timed=False):
+    """a helper that looks at one requested interval only (the last / the first) and is read per request as `dj`: it honours every request
+    iff what it selects for an earlier (later) request is contained in what it selects for the last (first) one.  Requests are disjoint and
+    sorted: e1 < b2."""
+    r1 = {'b': 'b1', 'e': 'e1'}
+    r2 = {'b': 'b2', 'e': 'e2'}
+    d1, d2 = _rename(dj, r1), _rename(dj, r2)
+    b1, e1, b2, e2, n = Aff.sym('b1'), Aff.sym('e1'), Aff.sym('b2'), Aff.sym('e2'), Aff.sym('n')
+    P = [b1, e1 - b1, b2 - e1 - Aff.const(1), e2 - b2, n - Aff.const(1) - e2]
+    if timed:
+        P += [Aff.sym('A'), Aff.sym('B') - Aff.sym('A')]
+    small, big = (d1, d2) if which == 'last' else (d2, d1)
+    live = [E for E in big if not _infeasible(P + E)]
+    for D in small:
+        if _infeasible(P + D):
+            continue
+        if not live:
+            return False
+        for combo in itertools.product(*[[(-a) - 1 for a in E] for E in live]):
+            if not _infeasible(P + D + list(combo)):
+                return False
+    return True
 
 
 def witness(disjuncts, d, nmax=4):
